@@ -686,6 +686,11 @@ class AmpBox(Dict[bytes, bytes]):
                 raise TypeError("Unicode key not allowed: %r" % k)
             if type(v) == str:
                 raise TypeError(f"Unicode value for key {k!r} not allowed: {v!r}")
+            if len(k) == 0:
+                # A zero-length string in key position is the box terminator
+                # on the wire: the peer would see the box end here and
+                # mis-frame everything after it.
+                raise ValueError(f"Empty key not allowed (value {v!r})")
             if len(k) > MAX_KEY_LENGTH:
                 raise TooLong(True, True, k, None)
             if len(v) > MAX_VALUE_LENGTH:
@@ -2345,6 +2350,8 @@ class BinaryBoxProtocol(
         @raise ProtocolSwitched: if the protocol has previously been switched.
 
         @raise ConnectionLost: if the connection has previously been lost.
+
+        @raise NoEmptyBoxes: if C{box} has no keys; the peer would reject it.
         """
         if self._locked:
             raise ProtocolSwitched(
@@ -2352,6 +2359,8 @@ class BinaryBoxProtocol(
             )
         if self.transport is None:
             raise ConnectionLost()
+        if not box:
+            raise NoEmptyBoxes(box)
         if self._startingTLSBuffer is not None:
             self._startingTLSBuffer.append(box)
         else:
@@ -2828,7 +2837,13 @@ class DateTime(Argument):
                 "You may find amp.utc useful."
             )
 
-        minutesOffset = (offset.days * 86400 + offset.seconds) // 60
+        # Round towards zero to whole minutes.  (Flooring would turn an offset
+        # such as -23:59:59 into -24:00, which fromString cannot decode.)
+        oneMinute = datetime.timedelta(minutes=1)
+        if offset < datetime.timedelta(0):
+            minutesOffset = -((-offset) // oneMinute)
+        else:
+            minutesOffset = offset // oneMinute
 
         if minutesOffset > 0:
             sign = "+"
